@@ -125,7 +125,7 @@ CLAIMED = {
     "C03": ("Lean 4 proof (membership for an arbitrary raw proposal: finish = digitize / choice from the grid; inheritance through the dedup loop; grid within bounds) + snap-mechanism conformance and exact membership oracle on all nine real samplers",
             "Proved in Lean for every grid, history, seed, raw-proposal function and pass budget: sample() of a snapping sampler returns batch_size rows whose every coordinate "
             "is an element of its parameter grid (C17 membership + C12 substitution), likewise for random-uniform (choice contract), and grid elements lie in [lower, upper+tol) "
-            "(C15); Lean witness of the repaired best-batch defect (clip alone leaves the grid). The tie to the code is checked each run: what every sample_batch returns IS the "
+            "(C15); before snapping, the scaled Halton, R-sequence, swarm and CORS points already lie within the declared bounds; Lean witness of the repaired best-batch defect (clip alone leaves the grid). The tie to the code is checked each run: what every sample_batch returns IS the "
             "output of its final digitize_data call, that call is replayed bit-for-bit on the model, and every proposal of every sampler is tested for exact grid membership "
             "over random spaces (non-aligned bounds, scales 1e-6..1e6), histories and successive calls.",
             "Trusted: Lean kernel; numpy choice contract; third-party optimisers/surrogates as arbitrary functions.",
@@ -137,7 +137,7 @@ CLAIMED = {
             "sampler); fit/predict arguments and the lowest-k rule are checked with a scripted surrogate and the real RF/XGB/GP; every best-batch proposal is reproduced bit "
             "for bit by the model from the recorded generator draws. The particle swarm is modelled whole (set-up, update of the bests, step, scaling): in every reachable state "
             "the global-best index points at a smallest personal-best loss; personal bests are the minimum of the losses in the particle's own slot of the history with the "
-            "matching row; the cross-sampler attractor is the first lowest-loss row; after a step positions lie in the unit cube and the raw proposal within the bounds; the "
+            "matching row (over any number of calls: the smallest loss the particle ever read from its own slot); the cross-sampler attractor is the first lowest-loss row; after a step positions lie in the unit cube and the raw proposal within the bounds; the "
             "real sampler's raw proposal and whole state equal the model's after every call. CORS: the density-decay counter runs 0,1,2,... without gaps over the life of an object, "
             "the radius is positive inside the schedule, cubetobox inverts boxtocube and maps the cube into the bounds; radii and constraint counts equal the model bit for bit.",
             "Trusted: Lean kernel; np.argsort returns a sorting permutation (validated per case); scipy betabinom range; harness/vp/tape.py.",
@@ -160,7 +160,8 @@ CLAIMED = {
             "DESIGN.md §4 C07"),
     "C20": ("Lean 4 proof (I + lambda K'K positive definite for every real K and lambda > 0 => the HP optimality condition has exactly one solution; cycle + trend = y; de-meaned difference keeps length and has zero sum; nan_to_num output finite) + residual / exact-rational validation of hp_filter and definitional checks of the derived filters and the 18 moments",
             "Proved in Lean (Mathlib matrices over R): for every length and every lambda > 0 the HP system matrix is positive definite, hence invertible, so the trend is the "
-            "unique solution of the optimality condition and cycle + trend is the input; the de-meaned first difference has the input's length and zero sum; after nan_to_num "
+            "unique solution of the optimality condition and cycle + trend is the input; that solution is the strict minimiser of the Hodrick-Prescott objective |y - t|^2 + lambda |K t|^2 "
+            "(excess = |h|^2 + lambda |K h|^2 for any other candidate t + h), with K the second-difference operator the code builds (row r of K t is t_r - 2 t_{r+1} + t_{r+2}); the de-meaned first difference has the input's length and zero sum; after nan_to_num "
             "every summary entry is finite. That spsolve returns that solution is validated by the residual bound 1e3*eps*(1+16*lambda)*max|y| on lengths 3-2000 and lambda in "
             "[1e-3,1e7] and by an exact rational pentadiagonal solve for n <= 40; derived filters are compared with their definitions, the moment summary with a reference.",
             "Trusted: Lean kernel, Mathlib; scipy/statsmodels numerical kernels (validated with tolerance).",
